@@ -868,6 +868,8 @@ def _norm_rule(chk, f, idxd, prog=None, unit=None):
                 if entails(list(st), v - g0) and entails(list(st), g0 - v):
                     return                      # a test of the raw argument's sign
                 break
+            if k == "un" and par.get("op") == "&":
+                return                          # the variable's address is handed to a helper: not a read of its value
             if k in ("if", "while", "for", "do", "return", "block", "exprstmt", "call", "decl"):
                 break
             cur, par = par, f.parent.get(par["i"])
